@@ -632,6 +632,17 @@ def site_of(q, p):
     return None, None
 
 
+def level_of(p):
+    last = None
+    for st in p.get('trace') or []:
+        if st.get('t') == 'a' and st.get('lhs') == 'level' and st.get('fn') == 'harness':
+            try:
+                last = int(str(st.get('v')).split()[0])
+            except ValueError:
+                pass
+    return last
+
+
 def write_replay(prop, q, p, r):
     tr = p.get('trace') or []
     dev = deviates_from_trace(tr)
@@ -641,7 +652,7 @@ def write_replay(prop, q, p, r):
     path = os.path.join(REPLAYS, prop, name + '.json')
     rec = {'property': prop, 'obligation': okey(q.qid, p), 'query_file': r.get('cfile'), 'cbmc_cmd': r.get('cmd'),
            'assertion': p.get('desc'), 'cbmc_property': p.get('name'), 'location': p.get('loc'),
-           'meta': {k: v for k, v in q.meta.items() if k != 'sites'}, 'deviates': dev, 'call_site': site_of(q, p),
+           'meta': {k: v for k, v in q.meta.items() if k != 'sites'}, 'deviates': dev, 'call_site': site_of(q, p), 'level': level_of(p),
            'call_path': [(c.get('from'), c.get('fn'), c.get('ln')) for c in calls][-40:],
            'failure': fail[-1] if fail else None,
            'trace_tail': tr[-120:]}
